@@ -7,7 +7,7 @@ use crate::fslane::{strace_lane, torn_tails};
 use crate::model::{Cov, Event};
 use crate::run::{
     build_env, crash_after_every_op, crash_after_every_store_call, history_check, order_independence,
-    run_main, store_faults, Abort, CaseEnv, MainTrace, Stats,
+    in_ctx, run_main, store_faults, Abort, CaseEnv, MainTrace, Stats,
 };
 
 const RULE: &str = "a case = one generated history: 1..12 request ids, a random interleaving of \
@@ -30,6 +30,7 @@ struct Cfg {
     fs_max_slots: usize,
     fs_ops_per_slot: (usize, usize),
     torn_cuts: usize,
+    window: Option<usize>,
     fs_every: u64,
     max_cases: u64,
 }
@@ -42,16 +43,18 @@ fn cfg_for(tier: &str) -> Cfg {
             fs_max_slots: 8,
             fs_ops_per_slot: (3, 6),
             torn_cuts: 6,
+            window: None,
             fs_every: 5,
             max_cases: 2_000_000,
         }
     } else {
         Cfg {
             max_slots: 12,
-            ops_per_slot: (3, 6),
+            ops_per_slot: (3, 5),
             fs_max_slots: 5,
             fs_ops_per_slot: (3, 4),
             torn_cuts: 2,
+            window: Some(8),
             fs_every: 6,
             max_cases: 200_000,
         }
@@ -83,6 +86,7 @@ fn history_json(events: &[Event]) -> Value {
 }
 
 struct CaseOut {
+    more: Vec<Abort>,
     cov: Cov,
     canon: String,
     history: Value,
@@ -94,7 +98,7 @@ where
     B::Snap: 'static,
     B::Store: 'static,
 {
-    let main = run_main(env, be, stats)?;
+    let main = in_ctx(run_main(env, be, stats), "uninterrupted", "uninterrupted run")?;
     *hist = history_json(&main.events);
     let (findings, cov) = history_check(&main);
     if let Some(f) = findings.first() {
@@ -114,10 +118,11 @@ fn run_case(seed: u64, case: u64, lane: &str, cfg: &Cfg, stats: &mut Stats, hist
     let env = env_for(seed, case, lane, cfg).map_err(Abort::Harness)?;
     *env_out = Some((env.slots.len(), env.ops.len(), ops_hash(&env)));
     let mut rng = Rng::for_case(seed, "C17:aux", case);
+    let mut more = Vec::new();
     let (events, cov) = if lane == "fs" {
         let mut be = Fs::new("c17");
         let (main, cov) = common(&env, &mut be, stats, hist)?;
-        torn_tails(&env, &mut be, &main, &mut rng, cfg.torn_cuts, stats)?;
+        torn_tails(&env, &mut be, &main, &mut rng, cfg.torn_cuts, stats, &mut more)?;
         (main.events, cov)
     } else {
         let mut be = Mem;
@@ -128,6 +133,7 @@ fn run_case(seed: u64, case: u64, lane: &str, cfg: &Cfg, stats: &mut Stats, hist
     };
     let canon: String = events.iter().map(Event::canon).collect();
     Ok(CaseOut {
+        more,
         settled: cov.settled_ids,
         cov,
         canon,
@@ -150,6 +156,8 @@ fn flush_stats(rep: &mut Report, s: &Stats) {
     rep.count("coordinator_poisoned_after_fault", s.poisoned);
     rep.count("coordinator_left_ready_after_harmless_fault", s.not_poisoned_harmless);
     rep.count("root_triple_checks", s.root_checks);
+    rep.count("continuations_full_remaining_workload", s.full_continuations);
+    rep.count("continuations_bounded_window", s.windowed_continuations);
     rep.count("insertion_order_permutation_checks", s.order_checks);
     rep.count("publish_manifest_calls_observed", s.publish_calls);
     for f in &s.fault_points {
@@ -157,7 +165,7 @@ fn flush_stats(rep: &mut Report, s: &Stats) {
         let mut it = f.split(':');
         let (k, m, n) = (it.next().unwrap_or(""), it.next().unwrap_or(""), it.next().unwrap_or("0"));
         rep.observe("fault_kinds", &format!("{k}:{m}"));
-        rep.count_max(&format!("max_fault_index_{k}"), n.parse::<u64>().unwrap_or(0));
+        rep.observe(&format!("{k}_fault_indices"), &format!("{:04}", n.parse::<u64>().unwrap_or(0)));
     }
 }
 
@@ -178,6 +186,7 @@ fn replay_body(seed: u64, case: u64, lane: &str, tier: &str, shape: &Option<(usi
 fn do_case(rep: &mut Report, seed: u64, case: u64, cfg: &Cfg, tier: &str) {
     let lane = lane_of(cfg, case);
     let mut stats = Stats::new();
+    stats.secondary_window = cfg.window;
     let mut hist = Value::Null;
     let mut shape = None;
     rep.eval();
@@ -187,10 +196,15 @@ fn do_case(rep: &mut Report, seed: u64, case: u64, cfg: &Cfg, tier: &str) {
     rep.count(&format!("cases_{lane}"), 1);
     if let Some((slots, _, _)) = &shape {
         rep.count("request_ids", *slots as u64);
-        rep.count_max("max_request_ids_in_one_history", *slots as u64);
+        rep.observe("request_ids_per_history", &format!("{slots:02}"));
     }
     match r {
-        Ok(out) => {
+        Ok(mut out) => {
+            for v in out.more.drain(..) {
+                if let Abort::Violation { sig, what, detail } = v {
+                    rep.violation(&sig, &what, replay_body(seed, case, lane, tier, &shape, &hist, detail));
+                }
+            }
             for (k, n) in &out.cov.legal {
                 rep.observe("lifecycle_transitions_observed", k);
                 rep.count(&format!("transition[{k}]"), *n);
@@ -230,7 +244,10 @@ pub fn run(args: &Args) -> i32 {
     if let Some(path) = &args.replay {
         return replay(args, path);
     }
-    let cfg = cfg_for(args.tier.as_str());
+    let mut cfg = cfg_for(args.tier.as_str());
+    if let Some(n) = std::env::var("VERIF_MAX_CASES").ok().and_then(|v| v.parse::<u64>().ok()) {
+        cfg.max_cases = n;
+    }
     let budget = Budget::for_tier(args.tier, 55.0, 660.0);
     let seed = args.seed;
     let tier = args.tier.as_str();
@@ -315,6 +332,7 @@ fn replay(args: &Args, path: &std::path::Path) -> i32 {
     let tier = r["tier"].as_str().unwrap_or("quick").to_owned();
     let cfg = cfg_for(&tier);
     let mut stats = Stats::new();
+    stats.secondary_window = cfg.window;
     let mut hist = Value::Null;
     let mut shape = None;
     let lane_s: &str = if lane == "fs" { "fs" } else { "mem" };
@@ -326,6 +344,20 @@ fn replay(args: &Args, path: &std::path::Path) -> i32 {
         }
     }
     match res {
+        Ok(out) if !out.more.is_empty() => {
+            let want = v["signature"].as_str().unwrap_or("");
+            let pick = out
+                .more
+                .iter()
+                .find(|a| matches!(a, Abort::Violation { sig, .. } if sig == want))
+                .or(out.more.first());
+            if let Some(Abort::Violation { sig, what, .. }) = pick {
+                println!("VIOLATION property=C17 replay={}", path.display());
+                println!("  signature: {sig}");
+                println!("  what: {what}");
+            }
+            1
+        }
         Ok(_) => {
             println!("REPLAY no divergence: seed {seed} case {case} lane {lane} ({} ops re-executed, {} after recoveries)", stats.main_ops, stats.cont_ops);
             0
